@@ -76,6 +76,8 @@ type Engine struct {
 	nocheck   bool
 	ghostDepth int
 	pendingFacts []*Term
+	foldDone  map[*Term]bool
+	foldUnfold map[string]func(t *Term)
 	caseCombo []int
 	astPkgs   map[string][]*ast.File
 	errGlobals []*Term
@@ -105,6 +107,8 @@ func (e *Engine) resetRun() {
 	e.supersededAt = map[*Term]int{}
 	e.havocConst = map[*Term]bool{}
 	e.havocLoc = map[*Term]*havocTarget{}
+	e.foldDone = nil
+	e.foldUnfold = nil
 	e.regionFrame = map[*Term]*regionFrameRec{}
 	e.obls = nil
 	e.safetyN = map[string]int{}
@@ -1727,6 +1731,9 @@ func (e *Engine) backEdge(fr *Frame, st *State, from, h *ssa.BasicBlock) {
 func (e *Engine) addObligation(fr *Frame, st *State, kind, label string, goal *Term, cl *Clause) {
 	if fr.ghost {
 		return
+	}
+	if kind == "post" || kind == "inv-keep" || kind == "inv-init" {
+		goal = e.existsHints(fr, st, goal)
 	}
 	o := &Obligation{Name: e.curFunc + "/" + kind + "/" + label, Kind: kind, Func: e.curFunc, Label: label, Cond: st.cond, Goal: goal, NFacts: len(e.facts), Clause: cl}
 	if cl != nil {
